@@ -268,6 +268,13 @@ func (r *Reader) eachByte(b byte) {
 		}
 	case readerStateWithinSysCommon:
 		//fmt.Println("readerStateWithinSysCommon")
+		// a new status byte abandons the incomplete message
+		if midilib.IsStatusByte(b) {
+			r.issetBf = false
+			r.state = readerStateClean
+			r.cleanState(b)
+			return
+		}
 		switch r.typ {
 		case byteMIDITimingCodeMessage:
 			/*
@@ -312,6 +319,13 @@ func (r *Reader) eachByte(b byte) {
 		}
 	case readerStateWithinChannelMessage:
 		//fmt.Println("readerStateWithinChannelMessage")
+		// a new status byte abandons the incomplete message
+		if midilib.IsStatusByte(b) {
+			r.issetBf = false
+			r.state = readerStateClean
+			r.cleanState(b)
+			return
+		}
 		r.withinChannelMessage(b)
 	default:
 		panic(fmt.Sprintf("unknown state %v, must not happen", r.state))
